@@ -68,7 +68,9 @@ OpEnabled(st, preds, op) == IF op.op = "fill_tags" THEN FillEnabled(st, preds) E
 \* the observable projection (what the accessors, the iterator and the writers show)
 Obs(st, res) ==
   [res |-> res, text |-> st.text, types |-> Types(st.text), bnd |-> st.bnd, ntags |-> st.ntags, tags |-> st.tags,
-   scores |-> st.scores, tokens |-> TokenRecords(st)]
+   scores |-> st.scores, tokens |-> TokenRecords(st),
+   \* the two writers (which clear the caller's buffer first): the lines of the CURRENT labels and tags, whatever was predicted before
+   wtok |-> WriteTokenized(st), wpart |-> WritePartial(st)]
 
 (* ---- invariants of the design ---- *)
 Shape(st) ==
